@@ -217,6 +217,13 @@ def audit_output(name, gfa, csv, nodes_in, segs_in, links_in, comp_nodes, with_s
         core.check(role_of[True] != role_of[False], "%s: CSV gives scaffold and bubble nodes the same role label %s", name, role_of[True])
 
 
+def graph_files(files):
+    """Output files that carry graph content: GFA/CSV by name, or anything with segment lines (left-over pieces). Other
+    files a run may leave (logs, summaries) are none of this property's business."""
+    return [f for f, text in files.items()
+            if f.endswith((".gfa", ".csv")) or any(l.startswith("S\t") for l in text.split("\n")[:50])]
+
+
 def run_order_case(case):
     nodes, links_plain = models.nodes_from_gfa_text(case["gfa"])
     segs_in, _, links_in, _ = models.parse_gfa_text(case["gfa"])
@@ -255,7 +262,7 @@ def run_order_case(case):
             gfa, csv, ng, ns = outs[c]
             core.check(ng == 1 and ns == 1, "%s: %d GFA and %d CSV files written (files: %s)", c, ng, ns, sorted(files))
             audit_output(c, gfa, csv, nodes, segs_in, links_in, set(named[c]), case["with_sequence"])
-        core.check(len(files) == 2 * len(order), "unexpected files in the output directory: %s", sorted(files))
+        core.check(len(graph_files(files)) == 2 * len(order), "unexpected GFA/CSV files in the output directory: %s", sorted(files))
     else:
         gfa, csv, ng, ns = outs["complete"]
         core.check(ng == 1 and ns == 1, "complete: %d GFA and %d CSV files written (files: %s)", ng, ns, sorted(files))
@@ -263,7 +270,7 @@ def run_order_case(case):
         for c in order:
             allnodes |= set(named[c])
         audit_output("complete", gfa, csv, nodes, segs_in, links_in, allnodes, case["with_sequence"])
-        core.check(len(files) == 2, "unexpected files in the output directory: %s", sorted(files))
+        core.check(len(graph_files(files)) == 2, "unexpected GFA/CSV files in the output directory: %s", sorted(files))
     cl = ["order", "by_chrom" if case["by_chrom"] else "complete", "with_sequence" if case["with_sequence"] else "no_sequence",
           "via:" + case.get("via", "api")]
     if len(order) >= 2:
